@@ -220,6 +220,9 @@ def gen_spec(seed: int, config: str | None = None) -> dict:
     near = [0, 1, 2, 3, window - 1, window, window + 1, window + 2, 2 * window, 2 * window + 1]
     n = rng.choice(near) if rng.random() < 0.7 else rng.randrange(0, 13)
     n = max(0, min(12, n))
+    if rng.random() < 0.06:
+        # a real corpus: more payloads than any counter, batch size or block length a loop might use internally
+        n = rng.choice([16, 17, 20, 32, 33, 40, 64])
     p_raise = rng.choice([0.0, 0.1, 0.3, 0.6, 1.0])
     payloads = []
     visual = entry in ("parproc_visual", "visual_legacy")
@@ -605,7 +608,7 @@ def run(spec: dict, decider: Decider, keep_events: bool = False) -> RunResult:
     from tatsu.parproc.result import Result
 
     rr = RunResult()
-    sim = Sim(decider, step_cap=5_000, keep_events=keep_events)
+    sim = Sim(decider, step_cap=20_000, keep_events=keep_events)
     payloads = build_payloads(spec)
     n = len(payloads)
     env = execseam.ExecEnv(
